@@ -197,6 +197,8 @@ def mul(*xs):
 
 def div(a, b):
     a, b = toreal(lift(a)), toreal(lift(b))
+    if a.op == "const" and cval(a) == 0:
+        return a  # 0/b = 0 (b != 0 is a separate well-definedness obligation)
     if b.op == "const" and cval(b) != 0:
         if a.op == "const":
             return mk("const", (cval(a) / cval(b),), R)
@@ -643,6 +645,8 @@ def diff(t, x, opaque=None):
             du, dv = d(u), d(v)
             if dv is zero:
                 r = div(du, v)
+            elif du is zero:
+                r = neg(div(mul(u, dv), power(v, const(2))))
             else:
                 r = div(sub(mul(du, v), mul(u, dv)), power(v, const(2)))
         elif op == "ipow":
